@@ -251,7 +251,7 @@ theorem fromNetwork_noUK (E : Env) (path : Str) (u : SUnit)
 theorem fromVolume_noUK (E : Env) (path : Str) (u : SUnit)
     (h0 : firstUnknown (entriesOf u (s "Volume")) supportedVolume = none)
     (h1 : firstUnknown (entriesOf u (s "Quadlet")) supportedQuadlet = none) : NoUK (fromVolume E path u) := by
-  unfold fromVolume
+  unfold fromVolume volumeOpts
   simp only [checkUnknown_ok _ _ _ h0, checkUnknown_ok _ _ _ h1]
   nouk
 
